@@ -3,6 +3,7 @@
 pub mod big;
 pub mod engine;
 pub mod gen;
+pub mod probe;
 
 pub use engine::*;
 pub use num_bigint::{BigInt, BigUint};
